@@ -26,7 +26,9 @@ func init() {
 			"E-sorted — a leaf enumerator of the C01 backends that does not iterate a sorted.KeyValue (memory, files) sorts the very slice it ranges over for its sends, before the sends. " +
 			"E-refill — filtering re-enumerators, computed over every dest-owning function of every implementer of BlobEnumerator (today: overlay only): a loop that starts a sub-enumeration on a fresh channel (directly or through a literal it starts), drains that channel in a nested receive loop that sends on dest on some iterations only, and goes round again. The integer variables of the round are classified by how they evolve, not by name or form (send counter: 0 before the loop and +1 exactly in the blocks entered when an element was sent on dest, or the mirror-image budget that starts at limit and is decremented there; per-round receive counter: 0 at the start of each round and +1 once per iteration of the receive loop; registers and captured variables alike), and the code before and after the receive loop is then evaluated in every world with limit 1..6, 0..limit sent before the round, R requested, 0..R received, 0..received sent, following both edges of every branch that cannot be evaluated. Decided per refill loop: (request) every round asks for at least 1 and at most limit-sent elements; (exit) every return that can report success lies only in worlds where the page is full or this round received fewer than this round asked for; (progress) the loop goes round again only in worlds where this round received something; (cursor) on every path to the next round the cursor passed to the sub-enumeration is Ref.String() of a variable that every iteration of the receive loop overwrites with the received ref (last received, not last sent). Shapes that cannot be followed (elements received through a helper or peeker, receive loop left by a success return or break, cursor assigned at several places) are reported undecided. " +
 			"S-sub-bound / S-sub-neg / S-sub-forward — the ranged-fetch clause (a ranged fetch returns exactly the requested sub-range, never bytes beyond the blob), over every declared SubFetch method of every implementer of blob.SubFetcher (exhaustive by interface; promoted methods are the embedded implementer's; today memory, files(+localdisk), diskpacked, blobpacked, proxycache, and outside the quantifier s3, gcs, azure), each followed into the module functions it hands offset/length to. Integer values are read as linear forms over the leaves offset, length, size (the index-row field that the type's own Fetch reports as the blob's size, of a row looked up with the ref; or the size result of Fetch(ref)) and opaque leaves, integer conversions being transparent, so `a > s-b` and `a+b > s` are the same guard. S-sub-bound, per reader-building site (io.NewSectionReader, io.LimitReader + Seek(offset, io.SeekStart)/io.CopyN(_, r, offset), a SubFetch call on another store, and every success return that hands out a reader built by none of these): the position is offset (plus, for a container larger than the blob — diskpacked's pack file, blobpacked's zip — a base taken from the index row); where the position has such a base the length operand must, on every path (phi edges and helper returns followed), be either size-offset, or length itself on a path dominated by a guard whose leaf set contains offset, length and size and whose sign says offset+length <= size — a guard relating length to size without the offset is reported as 'range cap ignores the offset', a capped value without the offset as such; where the object is the blob itself (memory's slice looked up by ref, files' file opened by blobPath(ref), a Fetch(ref) result) its end bounds the read and only 'positioned at offset on every path unless offset == 0' and 'limited by a value derived from length' are required; sites reachable only with a negative offset/length (the whole-blob mode of a shared fetch helper) are discharged by reference to S-sub-neg; a success return that hands out a reader depending on neither offset nor length is a violation. S-sub-neg, per implementer: every such site is dominated — in its own function, in a caller on the chain from SubFetch, or through the nil error of a helper all of whose success returns are so dominated — by offset >= 0 and length >= 0, and the rejecting edge of each guard leads to a return of blob.ErrNegativeSubFetch; pure forwarders discharge by contract. S-sub-forward, per SubFetch call whose position has no container base: ref, offset and length are passed on unchanged (identity for the ref, the linear form exactly `offset` / `length`); and every store field SubFetch reads from is one the type's Fetch reads from. Implementers outside the C01 quantifier (s3, gcs, azure: the range is served by a remote API) are checked at dependence level only (ref, offset and length all reach calls that leave the module; those calls lie behind the non-negative tests) and a failure there is recorded as a note, not as a violation (today: azure's SubFetch passes a negative length on to Client.GetPartial, which then returns the rest of the object instead of blob.ErrNegativeSubFetch). All arithmetic claims are at leaf-set and sign level: no overflow (offset+length wrapping), no value ranges. " +
-			"NOT decided: for the S-sub rules: that the bytes returned equal bytes[offset:min(offset+length,size)] (needs execution), integer overflow of offset+length, that the index row's offset/size are right, that offset > size is rejected (ErrOutOfRangeOffsetSubFetch), the order and conditions under which a wrapper tries its stores, the error a failed Seek/CopyN produces, io.LimitedReader/SectionReader values built as struct literals (reported undecided), what a remote range API returns; for E-refill: that the sub-enumeration's error is examined before exhaustion is concluded, that the filter itself is right (O-tomb), enumerating pagers that are not enumerators (blobserver.EnumerateAllFrom), and non-refilling filters; byte-for-byte equality of fetched data, size correctness, that a sorted.KeyValue iterator yields ascending keys (C10) or that the comparator used by a sort call is the blobref text order, that the bypass conditions around the cursor guard (first-iteration flags, after != \"\") are right, cursor semantics of cloud back ends (s3, gcs, azure, mongo, remote: E-close only), duplicate-receive no-op, any statement about histories, compositions or paging completeness. Those need execution.",
+			"R-refs-intact — the clauses 'after removal it is absent' and 'stat reports exactly the blobs present' for every supported composition: RemoveBlobs(ctx, []blob.Ref) and StatBlobs(ctx, []blob.Ref, fn) receive a list that belongs to the caller, and wrappers hand the very same slice to several sub-stores one after the other (overlay: upper.RemoveBlobs(blobs), then a tombstone per element of blobs) or at the same time (proxycache: cache and origin; replica, union: every replica/subset) — these callers are computed on every run from the interface call sites of the module (who reads the list again after the call, who starts several store calls on one captured list) and recorded as a note. Instance set: every declared RemoveBlobs/StatBlobs method of every implementer of blobserver.BlobRemover/BlobStatter (exhaustive by interface; implementers outside the C01 quantifier — cloud back ends, client, sync handler — are analysed the same way but a finding there is a note, not a violation) plus, transitively, every module function or function literal that is handed the list, one obligation per (function, list parameter). Decided per obligation: no value that may share the backing array of the list — the parameter, re-slices, conversions, phis, local and captured variables (flow-sensitively where a unique store reaches the load), append results that may have grown in place (not: append onto a full slice expression s[:n:n]), results of helpers that return such a value, function parameters resolved to the literals every static caller passes — is written: no store to an element or to a field of an element, no append onto a re-slice (which grows over the following elements), no copy/clear into it, no sort.Slice/SliceStable/Sort/Stable or slices.Sort*/Reverse (in-place permutation: a sibling store iterating the same list concurrently sees refs twice and misses others), no slices.Delete/Compact/Insert/Replace, directly or in a callee (summarised as 'may write the array of parameter i', with the kind of write). append onto the list itself writes only behind its end and is a violation only when some caller passes a prefix x[:n] of a longer list (none today). Copies made in the function (slices.Clone(list), append([]T(nil), list...)) are own arrays: writing them is not a finding, and a helper that is only ever handed such copies carries no obligation. A list stored into a field, map, channel or global, passed to an unknown external function, to an interface method other than RemoveBlobs/StatBlobs or to a function value that cannot be resolved, or an element address that escapes, is reported undecided, never passed. " +
+			"R-refs-cover — for the C01 back ends (and the helpers they hand the list to: StatBlobsParallelHelper, shard.batchedShards), per (function, list parameter): (a) every loop that indexes the list with a loop-variant index is the loop from 0 to len(list)-1 over the whole list (range form or three-clause form; the bound is len of the whole list), and no path from the start of an iteration to the next iteration avoids every use of the current element (a call that receives it or a value computed from it, a literal that captures it, a map lookup/update with it, a store, a send): a path that skips the element under a condition that does not depend on it is a violation, a skip under a comparison on the element without any call or lookup is undecided; (b) no part of the list (list[a:b], or a list filtered in place) is read, handed on or returned — reported undecided, since the rest may or may not be handled elsewhere; (c) every return that may report success (error operand not known non-nil, per incoming phi edge, not behind len(list) == 0) lies behind a point where the whole list (or an unedited copy of it) was handed to a sub-store's RemoveBlobs/StatBlobs or to a helper that itself satisfies this rule, or behind a loop of kind (a) — such a point inside a loop over sub-stores counts at that loop's header (the sub-store lists are assumed non-empty), inside a function literal it counts where the literal is run or handed to a call, provided every return of the literal lies behind it; a success return inside the loop over the list (return where continue was meant) is undecided. " +
+			"NOT decided: for the R-refs rules: which sub-store is the authoritative one (a wrapper that hands the whole list to its cache and only a filtered list to its origin satisfies R-refs-cover), whether a list built from the parameter by conditional appends (overlay's exists/lowerBlobs, blobpacked's packed/unpacked/trySmall, proxycache's need set, shard's buckets beyond S-route) drops only refs that need no handling, loops left early by break (StatBlobsParallelHelper on cancellation) and whether an error is reported then, chunked forwarding (list[:n] then list[n:]: reported undecided), corruption of a copy of the list that is afterwards used as if it were the list, writes through reflect/unsafe, callers outside the module; for the S-sub rules: that the bytes returned equal bytes[offset:min(offset+length,size)] (needs execution), integer overflow of offset+length, that the index row's offset/size are right, that offset > size is rejected (ErrOutOfRangeOffsetSubFetch), the order and conditions under which a wrapper tries its stores, the error a failed Seek/CopyN produces, io.LimitedReader/SectionReader values built as struct literals (reported undecided), what a remote range API returns; for E-refill: that the sub-enumeration's error is examined before exhaustion is concluded, that the filter itself is right (O-tomb), enumerating pagers that are not enumerators (blobserver.EnumerateAllFrom), and non-refilling filters; byte-for-byte equality of fetched data, size correctness, that a sorted.KeyValue iterator yields ascending keys (C10) or that the comparator used by a sort call is the blobref text order, that the bypass conditions around the cursor guard (first-iteration flags, after != \"\") are right, cursor semantics of cloud back ends (s3, gcs, azure, mongo, remote: E-close only), duplicate-receive no-op, any statement about histories, compositions or paging completeness. Those need execution.",
 		RuleDocs: map[string]string{
 			"E-close":       "every declared EnumerateBlobs/StreamBlobs method (exhaustive over implementers) + every static callee that receives dest: dest is closed exactly once on every path to every non-panic exit (close, defer, literal that closes, or delegation to a checked callee)",
 			"E-cursor":      "enumerators of the C01 backends + index + the merged-enumerate helpers: leaf: each send is skipped in-iteration on the key<=cursor (or key==cursor after Find(cursor)) edge of a comparison against a value built only from `after`; merge: cursor forwarded to all sub-enumerations; forwarder: cursor argument built only from `after`",
@@ -39,12 +41,14 @@ func init() {
 			"S-sub-bound":   "every declared SubFetch of every blob.SubFetcher implementer + the module functions it hands offset/length to; per reader-building site (NewSectionReader, LimitReader+Seek/CopyN, SubFetch into a container, whole-object success returns): positioned at offset (+ index-row base for containers); container: length operand on every path is size-offset or length under a dominating guard with leaf set {offset,length,size} and sign offset+length<=size; per-blob object: positioned on every path unless offset==0 and limited by a length-derived value; cloud back ends: dependence only",
 			"S-sub-neg":     "per SubFetch implementer: every reader-building site is dominated (own function, caller chain, or nil error of a helper) by offset>=0 and length>=0, and each rejecting edge returns blob.ErrNegativeSubFetch; pure forwarders by contract; cloud back ends noted, not enforced",
 			"S-sub-forward": "per SubFetch call without a container base: ref identical, offset and length linear forms exactly `offset` / `length`; per wrapper: store fields read by SubFetch are a subset of those read by the type's Fetch",
+			"R-refs-intact": "every declared RemoveBlobs/StatBlobs method of every implementer of BlobRemover/BlobStatter (exhaustive; outside the C01 quantifier: noted, not enforced) + every module function/literal handed the list: no value that may share the list's backing array (re-slices, conversions, variables, captures, in-place append results, helper results) is written by an element store, append onto a re-slice, copy, clear, sort.*/slices.* in-place edit, directly or in a callee; justified by the computed set of callers that reuse or share the list (overlay, proxycache, replica, union, handlers); escapes are undecided",
+			"R-refs-cover":  "C01 back ends' RemoveBlobs/StatBlobs + helpers handed the list: loops over the list run 0..len-1 over the whole list and cannot reach the next element without using the current one; no part of the list is read/handed on/returned (undecided); every maybe-success return lies behind a hand-over of the whole list to a sub-store/covering helper or behind such a loop (not behind len==0)",
 			"E-refill":      "every loop of a dest-owning enumerator function (all implementers of BlobEnumerator + dest delegates) that starts a sub-enumeration, drains it in a nested receive loop that sends on dest on some iterations only, and repeats: evaluated in all worlds limit 1..6 x sent-before x requested x received x sent-now: request in [1, limit-sent]; success returns only where page full or received < requested by this round; next round only where received >= 1; next cursor = Ref.String() of the last ref received (overwritten in every receive iteration) on every path to the next round",
 		},
 		Run:       runC01,
 		DesignRef: "DESIGN.md §4 C01",
-		Technique: "static analysis: CFG path typestate (channel closed exactly once, inter-procedural by summaries), in-iteration skip-edge reachability for cursor guards, control dependence of sends on limit comparisons, dominance/err==nil-edge rules for tombstones, value-dependence for shard routing, symbolic evaluation of the merge's discard predicate, role classification of loop-carried counters (phi webs and captured cells) plus exhaustive small-world evaluation of the refill protocol's branch conditions, linear forms over {offset, length, indexed size} with inter-procedural frames and dominating branch facts for the ranged-fetch bound",
-		LevelText: "Decides structural necessary conditions only: enumeration channels are always closed exactly once; the named backends' enumerators contain an exclusive cursor guard and a limit bound wired to the send loop; shard routing is one function of the ref; overlay tombstones are written/cleared before success is reported and consulted before yielding; merged enumeration picks the lowest head and suppresses duplicates against the last sent ref; memory and files sort what they range over; a filtering enumerator that refills its page (overlay) asks each round for exactly the missing number, concludes exhaustion only from the round it just ran, repeats only after receiving something, and resumes after the last ref received; every ranged fetch is positioned at the requested offset, is limited by the requested length and, where it reads from a container larger than the blob (diskpacked, blobpacked), caps the length by a guard over offset, length and the indexed size, rejects negative ranges with blob.ErrNegativeSubFetch before any reader is built, and wrappers pass the range on unchanged (leaf-set and sign level, overflow not modelled). Does not decide map semantics for any history, byte equality, sortedness of leaf output, paging completeness or compositions (level 'other').",
+		Technique: "static analysis: CFG path typestate (channel closed exactly once, inter-procedural by summaries), in-iteration skip-edge reachability for cursor guards, control dependence of sends on limit comparisons, dominance/err==nil-edge rules for tombstones, value-dependence for shard routing, symbolic evaluation of the merge's discard predicate, role classification of loop-carried counters (phi webs and captured cells) plus exhaustive small-world evaluation of the refill protocol's branch conditions, linear forms over {offset, length, indexed size} with inter-procedural frames and dominating branch facts for the ranged-fetch bound, may-alias closure of the backing array of a slice parameter (SSA value flow through re-slices, phis, variables, captures, append, helper returns) with per-(function, parameter) write summaries and computed who-reuses-the-list call sites, induction-variable recognition of whole-list loops with per-iteration use paths, must-pass-through of success returns",
+		LevelText: "Decides structural necessary conditions only: enumeration channels are always closed exactly once; the named backends' enumerators contain an exclusive cursor guard and a limit bound wired to the send loop; shard routing is one function of the ref; overlay tombstones are written/cleared before success is reported and consulted before yielding; merged enumeration picks the lowest head and suppresses duplicates against the last sent ref; memory and files sort what they range over; a filtering enumerator that refills its page (overlay) asks each round for exactly the missing number, concludes exhaustion only from the round it just ran, repeats only after receiving something, and resumes after the last ref received; every ranged fetch is positioned at the requested offset, is limited by the requested length and, where it reads from a container larger than the blob (diskpacked, blobpacked), caps the length by a guard over offset, length and the indexed size, rejects negative ranges with blob.ErrNegativeSubFetch before any reader is built, and wrappers pass the range on unchanged (leaf-set and sign level, overflow not modelled); no store, wrapper or helper writes the ref list its caller passed to RemoveBlobs/StatBlobs (which the caller, or a sibling store running concurrently, still uses), loops over that list visit all of it and look at every element, and success is not reported before the whole list was handed on or walked. Does not decide which sub-store must receive the whole list or whether refs filtered out of a derived list needed no handling. Does not decide map semantics for any history, byte equality, sortedness of leaf output, paging completeness or compositions (level 'other').",
 	})
 }
 
@@ -62,6 +66,7 @@ func runC01(p *Program, r *Reporter) {
 	c01RuleOTomb(p, r)
 	c01RuleMDedup(p, r)
 	c01RuleMLowest(p, r)
+	c01RuleRefs(p, r)
 }
 
 // ===========================================================================
@@ -6115,4 +6120,1542 @@ func c01SubCloud(r *Reporter, st *c01SubState, key, site string) {
 	} else {
 		r.Note("S-sub-neg: %s (outside the C01 quantifier, not enforced): %s", key, strings.Join(c01First(bad, 4), "; "))
 	}
+}
+
+// ===========================================================================
+// R-refs-intact / R-refs-cover: the ref list of a multi-ref operation
+//
+// RemoveBlobs(ctx, []blob.Ref) and StatBlobs(ctx, []blob.Ref, fn) receive a list
+// that belongs to the caller. Wrappers hand the very same slice to several
+// sub-stores, one after the other (overlay: upper.RemoveBlobs(blobs), then a
+// tombstone for every element of blobs) or concurrently (proxycache: cache and
+// origin; replica: every replica). A store that writes the backing array of the
+// list it was given therefore changes which refs its caller, or a sibling store,
+// operates on: a ref can be removed twice while another is never removed,
+// although every call reports success.
+//
+// R-refs-intact follows every value that may share the backing array of the list
+// parameter (re-slices, conversions, phis, variables and captured variables,
+// append results that may have grown in place, results of helpers that return
+// such a value) through the method, its function literals and every module
+// function it hands such a value to (summarised per (function, parameter)), and
+// requires that nothing can write through them.
+//
+// R-refs-cover requires, for the C01 back ends, that the whole list is looked at:
+// loops over the list run over all of it and cannot step to the next element
+// without having used the current one, no part of the list is singled out, and
+// success is not reported before the list was handed on or walked.
+
+const (
+	c01RwExtend    = 1 // append onto a value that ends where the list ends: writes only beyond len(list)
+	c01RwPermute   = 2 // reorders the elements in place
+	c01RwOverwrite = 3 // may replace elements of the list
+)
+
+var c01RwNames = map[int]string{c01RwExtend: "writes behind the end of the list", c01RwPermute: "reorders the list in place", c01RwOverwrite: "overwrites elements of the list"}
+
+type c01RefsKey struct {
+	fn  *ssa.Function
+	idx int // index into fn.Params
+}
+
+type c01RefsAttr struct {
+	whole  bool // certainly the entire list (same start, same length)
+	tail   bool // ends where the list ends (append onto it writes only beyond the list)
+	capped bool // cap == len by a full slice expression: append onto it cannot grow in place
+	narrow bool // may be a part of the list, or a list that went through append / a helper
+	copy   bool // a fresh copy of the list made here (slices.Clone, append(nil, list...)): same refs, own array
+}
+
+type c01RefsEvent struct {
+	kind int
+	in   ssa.Instruction
+	what string
+}
+
+type c01RefsFwd struct {
+	c     CallSite
+	whole bool
+	copy  bool
+	sub   *c01RefsSum // nil: interface RemoveBlobs/StatBlobs call (every implementer is an instance)
+}
+
+type c01RefsIndexing struct {
+	ia *ssa.IndexAddr
+	fn *ssa.Function
+}
+
+type c01RefsSum struct {
+	key       c01RefsKey
+	prm       *ssa.Parameter
+	funcs     []*ssa.Function
+	inFuncs   map[*ssa.Function]bool
+	done      bool
+	alias     map[ssa.Value]*c01RefsAttr
+	cells     map[*ssa.Alloc]*c01RefsAttr
+	mixed     map[*ssa.Alloc]bool // the variable also holds values that are not the list
+	carriers  map[ssa.Value]bool  // variadic []any temporaries that hold the list
+	events    []c01RefsEvent
+	copyEvs   []c01RefsEvent // writes to a copy of the list made in this function (the caller's array is untouched)
+	aliased   bool           // reached with the caller's own array (not only with copies)
+	undecided []string
+	retAlias  bool
+	forwards  []c01RefsFwd
+	indexings []c01RefsIndexing
+	partUses  []string // uses of values that may be only a part of the list
+	calls     int
+	entry     string // method name when this is an interface entry point
+}
+
+type c01Refs struct {
+	p       *Program
+	memo    map[c01RefsKey]*c01RefsSum
+	order   []*c01RefsSum
+	statter *types.Interface
+	remover *types.Interface
+	cover   map[*c01RefsSum]*c01RefsCover
+	loops   map[*ssa.Function][]*c01Loop
+}
+
+func c01RefsIsList(t types.Type) bool {
+	sl, ok := t.Underlying().(*types.Slice)
+	return ok && c01IsRef(sl.Elem())
+}
+
+func (a *c01Refs) line(pos token.Pos) int { return a.p.Fset.Position(pos).Line }
+
+func (a *c01Refs) loopsOf(fn *ssa.Function) []*c01Loop {
+	if l, ok := a.loops[fn]; ok {
+		return l
+	}
+	l := c01NaturalLoops(fn)
+	sort.SliceStable(l, func(i, j int) bool { return len(l[i].body) < len(l[j].body) })
+	a.loops[fn] = l
+	return l
+}
+
+// c01RefsExternal: what a function outside the module does to a slice argument.
+// One line of reason per entry: these are documented semantics of the standard library.
+func c01RefsExternal(pkg, name string) (kind int, retAlias, known bool) {
+	switch pkg {
+	case "fmt", "log":
+		return 0, false, true // formatting reads its operands
+	case "sort":
+		switch name {
+		case "Slice", "SliceStable", "Sort", "Stable":
+			return c01RwPermute, false, true // sorts in place
+		case "SliceIsSorted", "IsSorted", "Search":
+			return 0, false, true // read only
+		}
+	case "slices":
+		switch name {
+		case "Sort", "SortFunc", "SortStableFunc", "Reverse":
+			return c01RwPermute, false, true // in place
+		case "Delete", "DeleteFunc", "Compact", "CompactFunc", "Insert", "Replace":
+			return c01RwOverwrite, true, true // shift elements in place and return the shortened/grown slice
+		case "Grow", "Clip":
+			return 0, true, true // no element written; result shares the array
+		case "Clone", "Concat", "Contains", "ContainsFunc", "Index", "IndexFunc", "Equal", "EqualFunc",
+			"Compare", "CompareFunc", "BinarySearch", "BinarySearchFunc", "IsSorted", "IsSortedFunc",
+			"Max", "MaxFunc", "Min", "MinFunc", "Values", "All", "Backward", "Sorted", "SortedFunc":
+			return 0, false, true // read only; results are fresh
+		}
+	case "reflect":
+		if name == "DeepEqual" {
+			return 0, false, true
+		}
+	case "encoding/json":
+		if name == "Marshal" || name == "MarshalIndent" {
+			return 0, false, true
+		}
+	}
+	return 0, false, false
+}
+
+func c01RefsExtName(f *ssa.Function) (pkg, name string) {
+	if o := f.Origin(); o != nil {
+		f = o
+	}
+	name = f.Name()
+	if obj := f.Object(); obj != nil && obj.Pkg() != nil {
+		return obj.Pkg().Path(), name
+	}
+	if f.Pkg != nil {
+		return f.Pkg.Pkg.Path(), name
+	}
+	return "", name
+}
+
+func c01RefsBuiltin(c CallSite) string {
+	if b, ok := c.Common().Value.(*ssa.Builtin); ok {
+		return b.Name()
+	}
+	return ""
+}
+
+// isStoreCall: an interface call of RemoveBlobs/StatBlobs (the callee is some
+// implementer of blobserver.BlobRemover / BlobStatter, all of which are instances).
+func (a *c01Refs) isStoreCall(c CallSite) bool {
+	cc := c.Common()
+	if !cc.IsInvoke() {
+		return false
+	}
+	switch cc.Method.Name() {
+	case "RemoveBlobs":
+		return types.Implements(cc.Value.Type(), a.remover)
+	case "StatBlobs":
+		return types.Implements(cc.Value.Type(), a.statter)
+	}
+	return false
+}
+
+func (a *c01Refs) moduleCallee(c CallSite) *ssa.Function {
+	if c.Common().IsInvoke() {
+		return nil
+	}
+	g := c.Callee()
+	if g == nil || g.Blocks == nil {
+		return nil
+	}
+	if g.Parent() != nil || InModule(g) {
+		return g
+	}
+	if o := g.Origin(); o != nil && InModule(o) {
+		return g
+	}
+	return nil
+}
+
+func (a *c01Refs) summarise(fn *ssa.Function, idx int) *c01RefsSum {
+	key := c01RefsKey{fn, idx}
+	if s, ok := a.memo[key]; ok {
+		return s
+	}
+	s := &c01RefsSum{key: key, prm: fn.Params[idx], funcs: c01DeepFuncs(fn), inFuncs: map[*ssa.Function]bool{},
+		alias: map[ssa.Value]*c01RefsAttr{}, cells: map[*ssa.Alloc]*c01RefsAttr{}, mixed: map[*ssa.Alloc]bool{}, carriers: map[ssa.Value]bool{}}
+	for _, f := range s.funcs {
+		s.inFuncs[f] = true
+	}
+	a.memo[key] = s
+	a.propagate(s)
+	a.collect(s)
+	s.done = true
+	a.order = append(a.order, s)
+	return s
+}
+
+// merge joins attribute n into the attribute recorded for v: whole/tail/capped
+// can only be lost, narrow can only be gained. Reports a change.
+func c01RefsMerge(m *c01RefsAttr, n c01RefsAttr) (*c01RefsAttr, bool) {
+	if m == nil {
+		c := n
+		return &c, true
+	}
+	o := *m
+	m.whole = m.whole && n.whole
+	m.tail = m.tail && n.tail
+	m.capped = m.capped && n.capped
+	m.copy = m.copy && n.copy
+	m.narrow = m.narrow || n.narrow
+	return m, o != *m
+}
+
+func (s *c01RefsSum) lenOfWhole(v ssa.Value) bool {
+	call, ok := v.(*ssa.Call)
+	if !ok {
+		return false
+	}
+	b, ok := call.Call.Value.(*ssa.Builtin)
+	if !ok || b.Name() != "len" || len(call.Call.Args) != 1 {
+		return false
+	}
+	at := s.alias[call.Call.Args[0]]
+	return at != nil && at.whole
+}
+
+func c01RefsIsZero(v ssa.Value) bool {
+	if v == nil {
+		return true
+	}
+	n, ok := ConstInt(v)
+	return ok && n == 0
+}
+
+// transfer computes the attribute of value v from its operands (nil: not the list).
+func (a *c01Refs) transfer(s *c01RefsSum, v ssa.Value, strict bool) *c01RefsAttr {
+	switch x := v.(type) {
+	case *ssa.Slice:
+		ax := s.alias[x.X]
+		if ax == nil {
+			if s.carriers[x.X] {
+				s.carriers[x] = true
+			}
+			return nil
+		}
+		lowZero := c01RefsIsZero(x.Low)
+		highFull := x.High == nil || s.lenOfWhole(x.High)
+		at := &c01RefsAttr{whole: ax.whole && lowZero && highFull, tail: (ax.tail && x.High == nil) || s.lenOfWhole(x.High), narrow: ax.narrow || !(lowZero && highFull), copy: ax.copy}
+		if x.Max != nil && x.High != nil {
+			mh, ok1 := ConstInt(x.Max)
+			hh, ok2 := ConstInt(x.High)
+			at.capped = x.Max == x.High || (ok1 && ok2 && mh == hh)
+		}
+		return at
+	case *ssa.Phi:
+		var at *c01RefsAttr
+		other := false
+		for _, e := range x.Edges {
+			if ae := s.alias[e]; ae != nil {
+				at, _ = c01RefsMerge(at, *ae)
+			} else if e != ssa.Value(x) {
+				other = true
+			}
+		}
+		if at != nil && other && strict {
+			at.whole = false
+		}
+		return at
+	case *ssa.ChangeType:
+		return c01RefsCopy(s.alias[x.X])
+	case *ssa.Convert:
+		return c01RefsCopy(s.alias[x.X])
+	case *ssa.MakeInterface:
+		return c01RefsCopy(s.alias[x.X])
+	case *ssa.ChangeInterface:
+		return c01RefsCopy(s.alias[x.X])
+	case *ssa.TypeAssert:
+		return c01RefsCopy(s.alias[x.X])
+	case *ssa.Extract:
+		if at := s.alias[x.Tuple]; at != nil {
+			if _, isSlice := x.Type().Underlying().(*types.Slice); isSlice || types.IsInterface(x.Type()) {
+				return c01RefsCopy(at)
+			}
+		}
+		return nil
+	case *ssa.UnOp:
+		if x.Op != token.MUL {
+			return nil
+		}
+		cell, ok := varOf(x.X)
+		if !ok {
+			return nil
+		}
+		al, ok := cell.(*ssa.Alloc)
+		if !ok || s.cells[al] == nil {
+			return nil
+		}
+		if r := resolveLoad(x); r != nil {
+			return c01RefsCopy(s.alias[r])
+		}
+		at := c01RefsCopy(s.cells[al])
+		if s.mixed[al] {
+			at.whole = false
+		}
+		return at
+	case *ssa.Call:
+		c := CallSite{x.Parent(), x}
+		args := c.Args()
+		if name := c01RefsBuiltin(c); name != "" {
+			if name == "append" && len(args) > 0 {
+				if a0 := s.alias[args[0]]; a0 != nil && !a0.capped {
+					return &c01RefsAttr{tail: a0.tail, narrow: true, copy: a0.copy}
+				}
+				if len(args) == 2 && s.alias[args[0]] == nil && c01RefsEmptyFresh(args[0]) {
+					if a1 := s.alias[args[1]]; a1 != nil && a1.whole {
+						return &c01RefsAttr{whole: true, tail: true, copy: true} // append([]T(nil), list...)
+					}
+				}
+			}
+			return nil
+		}
+		any, allCopy := false, true
+		for j, arg := range args {
+			if s.alias[arg] == nil {
+				continue
+			}
+			allCopy = allCopy && s.alias[arg].copy
+			if g := a.moduleCallee(c); g != nil {
+				if j < len(g.Params) {
+					if sub := a.summarise(g, j); sub.retAlias {
+						any = true
+					}
+				}
+			} else if g := c.Callee(); g != nil && !c.Common().IsInvoke() {
+				pkg, name := c01RefsExtName(g)
+				if _, ret, known := c01RefsExternal(pkg, name); known && ret {
+					any = true
+				}
+				if pkg == "slices" && name == "Clone" && s.alias[arg].whole {
+					return &c01RefsAttr{whole: true, tail: true, copy: true}
+				}
+			}
+		}
+		if any {
+			return &c01RefsAttr{narrow: true, copy: allCopy}
+		}
+	}
+	return nil
+}
+
+// c01RefsEmptyFresh: nil, or make([]T, 0, n).
+func c01RefsEmptyFresh(v ssa.Value) bool {
+	if IsNilConst(v) {
+		return true
+	}
+	if ms, ok := v.(*ssa.MakeSlice); ok {
+		n, isC := ConstInt(ms.Len)
+		return isC && n == 0
+	}
+	return false
+}
+
+func c01RefsCopy(at *c01RefsAttr) *c01RefsAttr {
+	if at == nil {
+		return nil
+	}
+	c := *at
+	return &c
+}
+
+// propagate computes the set of values that may share the backing array of the list.
+func (a *c01Refs) propagate(s *c01RefsSum) {
+	s.alias[s.prm] = &c01RefsAttr{whole: true, tail: true}
+	pass := func(strict bool) bool {
+		changed := false
+		set := func(v ssa.Value, at *c01RefsAttr) {
+			if at == nil {
+				return
+			}
+			m, ch := c01RefsMerge(s.alias[v], *at)
+			s.alias[v] = m
+			changed = changed || ch
+		}
+		for _, f := range s.funcs {
+			for _, fv := range f.FreeVars {
+				if b := bindingOf(fv); b != nil {
+					set(fv, c01RefsCopy(s.alias[b]))
+				}
+			}
+			for _, blk := range f.Blocks {
+				for _, in := range blk.Instrs {
+					if st, ok := in.(*ssa.Store); ok {
+						at := s.alias[st.Val]
+						if at == nil {
+							if s.carriers[st.Val] {
+								// a variadic temporary stored into a variable: not followed further
+							}
+							continue
+						}
+						if cell, ok := varOf(st.Addr); ok {
+							if al, ok := cell.(*ssa.Alloc); ok && plainVariable(al) {
+								m, ch := c01RefsMerge(s.cells[al], *at)
+								s.cells[al] = m
+								changed = changed || ch
+								if strict && !s.mixed[al] {
+									for _, o := range storesTo(al) {
+										if s.alias[o.Val] == nil {
+											s.mixed[al] = true
+											changed = true
+										}
+									}
+								}
+								continue
+							}
+						}
+						if ia, ok := st.Addr.(*ssa.IndexAddr); ok {
+							if arr, ok := ia.X.(*ssa.Alloc); ok && !s.carriers[arr] {
+								if _, isArr := arr.Type().Underlying().(*types.Pointer).Elem().Underlying().(*types.Array); isArr {
+									s.carriers[arr] = true
+									changed = true
+								}
+							}
+						}
+						continue
+					}
+					if v, ok := in.(ssa.Value); ok {
+						set(v, a.transfer(s, v, strict))
+					}
+				}
+			}
+		}
+		return changed
+	}
+	for i := 0; i < 64 && pass(false); i++ {
+	}
+	for i := 0; i < 64 && pass(true); i++ {
+	}
+}
+
+// event records a write; writes to a copy made in this function do not touch the caller's array.
+func (s *c01RefsSum) event(target ssa.Value, e c01RefsEvent) {
+	if at := s.alias[target]; at != nil && at.copy {
+		s.copyEvs = append(s.copyEvs, e)
+		return
+	}
+	s.events = append(s.events, e)
+}
+
+func (s *c01RefsSum) copyOverwritten() bool {
+	for _, e := range s.copyEvs {
+		if e.kind == c01RwOverwrite {
+			return true
+		}
+	}
+	return false
+}
+
+func (s *c01RefsSum) und(format string, args ...any) {
+	s.undecided = append(s.undecided, fmt.Sprintf(format, args...))
+}
+
+// collect classifies every use of a value that may be the list.
+func (a *c01Refs) collect(s *c01RefsSum) {
+	partUse := func(v ssa.Value, what string, in ssa.Instruction) {
+		if at := s.alias[v]; at != nil && at.narrow && !at.copy {
+			s.partUses = append(s.partUses, fmt.Sprintf("%s at line %d", what, a.line(in.Pos())))
+		}
+	}
+	for _, f := range s.funcs {
+		for _, blk := range f.Blocks {
+			for _, in := range blk.Instrs {
+				switch x := in.(type) {
+				case *ssa.DebugRef:
+					continue
+				case *ssa.IndexAddr:
+					if s.alias[x.X] != nil {
+						a.indexing(s, x, x, f)
+						partUse(x.X, "an element of a part of the list is accessed", x)
+					}
+				case *ssa.Store:
+					if s.alias[x.Val] == nil {
+						continue
+					}
+					if cell, ok := varOf(x.Addr); ok {
+						if al, ok := cell.(*ssa.Alloc); ok && s.cells[al] != nil {
+							continue
+						}
+					}
+					if ia, ok := x.Addr.(*ssa.IndexAddr); ok && s.carriers[ia.X] {
+						continue
+					}
+					s.und("the list is stored into %s at line %d (a field, global, element or variable whose address is taken): later writes through it are not followed", x.Addr.Name(), a.line(x.Pos()))
+				case ssa.CallInstruction:
+					a.callEvent(s, CallSite{f, x})
+				case *ssa.Return:
+					for _, rv := range x.Results {
+						if s.alias[rv] == nil || s.alias[rv].copy {
+							continue // a copy made here is a fresh array: nothing of the caller's is handed back
+						}
+						if f == s.key.fn {
+							s.retAlias = true
+						} else {
+							s.und("function literal %s returns the list to a caller that is not followed", FuncKey(f))
+						}
+						if at := s.alias[rv]; at != nil && at.narrow && !at.copy {
+							s.partUses = append(s.partUses, "a part of the list (or a list filtered in place) is returned")
+						}
+					}
+				case *ssa.Send:
+					if s.alias[x.X] != nil {
+						s.und("the list is sent over a channel at line %d", a.line(x.Pos()))
+					}
+				case *ssa.MapUpdate:
+					if s.alias[x.Value] != nil || s.alias[x.Key] != nil {
+						s.und("the list is stored into a map at line %d", a.line(x.Pos()))
+					}
+				case *ssa.Slice, *ssa.Phi, *ssa.ChangeType, *ssa.Convert, *ssa.MakeInterface, *ssa.ChangeInterface,
+					*ssa.TypeAssert, *ssa.Extract, *ssa.UnOp, *ssa.BinOp, *ssa.MakeClosure, *ssa.If:
+					// derivations (followed by propagate), loads, nil comparisons
+				default:
+					for _, op := range in.Operands(nil) {
+						if *op != nil && s.alias[*op] != nil {
+							s.und("use of the list by an instruction that is not modelled (%T at line %d)", in, a.line(in.Pos()))
+						}
+					}
+				}
+			}
+		}
+	}
+}
+
+// indexing classifies what is done with the address of an element of the list.
+func (a *c01Refs) indexing(s *c01RefsSum, ia *ssa.IndexAddr, addr ssa.Value, f *ssa.Function) {
+	if addr == ssa.Value(ia) {
+		s.indexings = append(s.indexings, c01RefsIndexing{ia, f})
+	}
+	refs := addr.Referrers()
+	if refs == nil {
+		return
+	}
+	for _, ref := range *refs {
+		switch x := ref.(type) {
+		case *ssa.DebugRef:
+		case *ssa.UnOp:
+			if x.Op != token.MUL {
+				s.und("address of a list element used by %s at line %d", x.Op, a.line(x.Pos()))
+			}
+		case *ssa.Store:
+			if x.Addr == addr {
+				s.event(ia.X, c01RefsEvent{c01RwOverwrite, x, fmt.Sprintf("assignment to an element of the list at line %d", a.line(x.Pos()))})
+			} else {
+				s.und("address of a list element is stored at line %d", a.line(x.Pos()))
+			}
+		case *ssa.FieldAddr:
+			a.indexing(s, ia, x, f)
+		default:
+			s.und("address of a list element escapes (%T at line %d): writes through it are not followed", ref, a.line(ref.Pos()))
+		}
+	}
+}
+
+// funcParamTargets resolves a call of a function-typed parameter (batchedShards'
+// fn) to the literals or functions every static caller passes for it.
+func (a *c01Refs) funcParamTargets(c CallSite) ([]*ssa.Function, string) {
+	prm, ok := originValue(c.Common().Value).(*ssa.Parameter)
+	if !ok {
+		return nil, "not a parameter of the enclosing function"
+	}
+	f := prm.Parent()
+	idx := -1
+	for i, q := range f.Params {
+		if q == prm {
+			idx = i
+		}
+	}
+	callers := a.p.StaticCallers(f)
+	if idx < 0 || len(callers) == 0 || f.Parent() != nil {
+		return nil, "no static caller of " + FuncKey(f) + " found"
+	}
+	if len(a.p.FuncValueUses(f)) > 0 {
+		return nil, FuncKey(f) + " is also used as a function value"
+	}
+	var out []*ssa.Function
+	for _, cs := range callers {
+		args := cs.Args()
+		if idx >= len(args) {
+			return nil, "caller passes it variadically"
+		}
+		switch v := originValue(args[idx]).(type) {
+		case *ssa.MakeClosure:
+			out = append(out, v.Fn.(*ssa.Function))
+		case *ssa.Function:
+			if v.Blocks == nil {
+				return nil, "a caller passes a function without source"
+			}
+			out = append(out, v)
+		default:
+			return nil, "a caller of " + FuncKey(f) + " passes a function that cannot be named statically"
+		}
+	}
+	return out, ""
+}
+
+func (a *c01Refs) callEvent(s *c01RefsSum, c CallSite) {
+	args := c.Args()
+	var idxs []int
+	carrier := false
+	for j, arg := range args {
+		if s.alias[arg] != nil {
+			idxs = append(idxs, j)
+		} else if s.carriers[arg] {
+			carrier = true
+		}
+	}
+	if len(idxs) == 0 && !carrier {
+		return
+	}
+	s.calls++
+	ln := a.line(c.Pos())
+	partUse := func(j int, what string) {
+		if at := s.alias[args[j]]; at != nil && at.narrow && !at.copy {
+			s.partUses = append(s.partUses, fmt.Sprintf("a part of the list (or a list filtered in place) is %s at line %d", what, ln))
+		}
+	}
+	if name := c01RefsBuiltin(c); name != "" {
+		switch name {
+		case "len", "cap", "print", "println":
+		case "append":
+			if at := s.alias[args[0]]; at != nil && !at.capped {
+				kind, how := c01RwOverwrite, "append onto a re-slice of the list, which grows in place over the following elements"
+				if at.tail {
+					kind, how = c01RwExtend, "append onto the list itself (in place when the caller's slice has spare capacity)"
+				}
+				s.event(args[0], c01RefsEvent{kind, c.Instr, fmt.Sprintf("%s, at line %d", how, ln)})
+			}
+			if len(args) > 1 && s.alias[args[1]] != nil {
+				partUse(1, "appended to another list")
+			}
+		case "copy":
+			if s.alias[args[0]] != nil {
+				s.event(args[0], c01RefsEvent{c01RwOverwrite, c.Instr, fmt.Sprintf("copy into the list at line %d", ln)})
+			}
+			if len(args) > 1 && s.alias[args[1]] != nil {
+				partUse(1, "copied")
+			}
+		case "clear":
+			if len(idxs) > 0 {
+				s.event(args[idxs[0]], c01RefsEvent{c01RwOverwrite, c.Instr, fmt.Sprintf("clear of the list at line %d", ln)})
+			}
+		default:
+			s.und("the list is passed to builtin %s at line %d", name, ln)
+		}
+		return
+	}
+	if a.isStoreCall(c) {
+		for _, j := range idxs {
+			at := s.alias[args[j]]
+			s.forwards = append(s.forwards, c01RefsFwd{c, at.whole, at.copy, nil})
+			partUse(j, "handed to "+c.CalleeKey())
+		}
+		if carrier {
+			s.und("the list is passed to %s inside a variadic argument at line %d", c.CalleeKey(), ln)
+		}
+		return
+	}
+	if c.Common().IsInvoke() {
+		s.und("the list is passed to interface method %s at line %d, whose implementations are not in the instance set", c.CalleeKey(), ln)
+		return
+	}
+	handOver := func(g *ssa.Function) {
+		if carrier {
+			s.und("the list is passed to %s inside a variadic argument at line %d", FuncKey(g), ln)
+		}
+		for _, j := range idxs {
+			if j >= len(g.Params) {
+				s.und("the list is passed to %s as a variadic argument at line %d", FuncKey(g), ln)
+				continue
+			}
+			sub := a.summarise(g, j)
+			if !sub.done {
+				continue // recursion: the callee's effects are those of the cycle, collected where it is entered
+			}
+			at := s.alias[args[j]]
+			s.forwards = append(s.forwards, c01RefsFwd{c, at.whole, at.copy, sub})
+			partUse(j, "handed to "+FuncKey(g))
+			kind, what := 0, ""
+			for _, e := range sub.events {
+				if e.kind > kind {
+					kind, what = e.kind, e.what
+				}
+			}
+			if kind > 0 {
+				if kind == c01RwExtend && !at.tail {
+					kind = c01RwOverwrite
+				}
+				s.event(args[j], c01RefsEvent{kind, c.Instr, fmt.Sprintf("call of %s at line %d, which may write the array of its parameter %s (%s)", FuncKey(g), ln, sub.prm.Name(), what)})
+			}
+			for _, u := range sub.undecided {
+				s.und("in %s: %s", FuncKey(g), u)
+			}
+		}
+	}
+	if g := a.moduleCallee(c); g != nil {
+		handOver(g)
+		return
+	}
+	g := c.Callee()
+	if g == nil {
+		lits, why := a.funcParamTargets(c)
+		if why != "" {
+			s.und("the list is passed to a function value at line %d (%s): what the callee does with it is not known", ln, why)
+			return
+		}
+		for _, l := range lits {
+			handOver(l)
+		}
+		return
+	}
+	pkg, name := c01RefsExtName(g)
+	kind, _, known := c01RefsExternal(pkg, name)
+	if !known {
+		s.und("the list is passed to %s.%s at line %d, which is not known to leave it unwritten", pkg, name, ln)
+		return
+	}
+	if kind > 0 && len(idxs) > 0 {
+		s.event(args[idxs[0]], c01RefsEvent{kind, c.Instr, fmt.Sprintf("%s.%s on the list at line %d", pkg, name, ln)})
+	}
+}
+
+// useOfWhole: instruction in reads the list as the caller passed it (a value that
+// is certainly the entire list), other than to take its length.
+func (a *c01Refs) useOfWhole(s *c01RefsSum, in ssa.Instruction, depth int) string {
+	isWhole := func(v ssa.Value) bool { at := s.alias[v]; return at != nil && at.whole && !at.copy }
+	switch x := in.(type) {
+	case *ssa.IndexAddr:
+		if isWhole(x.X) {
+			return fmt.Sprintf("its elements are read at line %d", a.line(x.Pos()))
+		}
+	case *ssa.Return:
+		for _, rv := range x.Results {
+			if isWhole(rv) {
+				return "it is returned"
+			}
+		}
+	case ssa.CallInstruction:
+		c := CallSite{in.Parent(), x}
+		if n := c01RefsBuiltin(c); n == "len" || n == "cap" {
+			return ""
+		}
+		for _, arg := range c.Args() {
+			if isWhole(arg) {
+				return fmt.Sprintf("it is handed to %s at line %d", c.CalleeKey(), a.line(c.Pos()))
+			}
+		}
+	case *ssa.MakeClosure:
+		if g, ok := x.Fn.(*ssa.Function); ok && depth < 4 {
+			for _, h := range c01DeepFuncs(g) {
+				for _, blk := range h.Blocks {
+					for _, in2 := range blk.Instrs {
+						if _, isMC := in2.(*ssa.MakeClosure); isMC {
+							continue
+						}
+						if d := a.useOfWhole(s, in2, depth+1); d != "" {
+							return d + " (in " + FuncKey(h) + ")"
+						}
+					}
+				}
+			}
+		}
+	}
+	return ""
+}
+
+// laterUse: after the write e, going forward (not round a loop), the function
+// itself still uses the list as it was passed in.
+func (a *c01Refs) laterUse(s *c01RefsSum, e c01RefsEvent) string {
+	blk := e.in.Block()
+	if blk == nil {
+		return ""
+	}
+	after := false
+	for _, in := range blk.Instrs {
+		if in == e.in {
+			after = true
+			continue
+		}
+		if after {
+			if d := a.useOfWhole(s, in, 0); d != "" {
+				return d
+			}
+		}
+	}
+	reach := map[*ssa.BasicBlock]bool{}
+	var order []*ssa.BasicBlock
+	var walk func(b *ssa.BasicBlock)
+	walk = func(b *ssa.BasicBlock) {
+		for _, sc := range b.Succs {
+			if sc.Dominates(b) || reach[sc] {
+				continue
+			}
+			reach[sc] = true
+			order = append(order, sc)
+			walk(sc)
+		}
+	}
+	walk(blk)
+	sort.Slice(order, func(i, j int) bool { return order[i].Index < order[j].Index })
+	for _, b := range order {
+		for _, in := range b.Instrs {
+			if d := a.useOfWhole(s, in, 0); d != "" {
+				return d
+			}
+		}
+	}
+	return ""
+}
+
+// ---------------------------------------------------------------------------
+// Who relies on the list staying intact (computed, not assumed)
+
+type c01RefsWitnesses struct {
+	concurrent map[string][]string // method name -> callers that run several store calls on one list at once
+	reuse      map[string][]string // method name -> callers that read the list again after the call
+	prefix     map[string][]string // method name -> callers that pass a prefix x[:n] of a longer list
+}
+
+func (a *c01Refs) witnesses() *c01RefsWitnesses {
+	w := &c01RefsWitnesses{map[string][]string{}, map[string][]string{}, map[string][]string{}}
+	usesIn := func(g *ssa.Function, v ssa.Value) bool {
+		for _, blk := range g.Blocks {
+			for _, in := range blk.Instrs {
+				if _, dbg := in.(*ssa.DebugRef); dbg {
+					continue
+				}
+				for _, op := range in.Operands(nil) {
+					if *op != nil && (*op == v || originValue(*op) == v) {
+						if ci, ok := in.(ssa.CallInstruction); ok {
+							if n := c01RefsBuiltin(CallSite{g, ci}); n == "len" || n == "cap" {
+								continue
+							}
+						}
+						return true
+					}
+				}
+			}
+		}
+		return false
+	}
+	for _, f := range a.p.AllFuncs {
+		top := TopFunc(f)
+		if top.Pkg == nil || IsTestSupportPkg(RelPkg(top.Pkg.Pkg)) {
+			continue
+		}
+		for _, c := range CallsIn(f, false) {
+			if !a.isStoreCall(c) {
+				continue
+			}
+			var list ssa.Value
+			for _, arg := range c.Args()[1:] {
+				if c01RefsIsList(arg.Type()) {
+					list = arg
+					break
+				}
+			}
+			if list == nil {
+				continue
+			}
+			m := c.Common().Method.Name()
+			v := originValue(list)
+			if sl, ok := v.(*ssa.Slice); ok && sl.High != nil && sl.Max == nil {
+				w.prefix[m] = append(w.prefix[m], FuncKey(f)+" (passes a prefix of a longer list)")
+			}
+			// read again after the call, in the same function
+			after := false
+			seen := map[*ssa.BasicBlock]bool{}
+			var walk func(b *ssa.BasicBlock, from int)
+			walk = func(b *ssa.BasicBlock, from int) {
+				for _, in := range b.Instrs[from:] {
+					if in == c.Instr.(ssa.Instruction) {
+						continue
+					}
+					if _, dbg := in.(*ssa.DebugRef); dbg {
+						continue
+					}
+					if ci, ok := in.(ssa.CallInstruction); ok {
+						if n := c01RefsBuiltin(CallSite{f, ci}); n == "len" || n == "cap" {
+							continue
+						}
+					}
+					for _, op := range in.Operands(nil) {
+						if *op != nil && (*op == v || originValue(*op) == v) {
+							after = true
+						}
+					}
+				}
+				for _, sc := range b.Succs {
+					if !seen[sc] {
+						seen[sc] = true
+						walk(sc, 0)
+					}
+				}
+			}
+			walk(c.Block(), instrIndex(c.Instr.(ssa.Instruction))+1)
+			if after {
+				w.reuse[m] = append(w.reuse[m], FuncKey(f)+" (reads the list again after the call)")
+			}
+			// several store calls on one list at the same time
+			if par := f.Parent(); par != nil {
+				isAncestor := func(g *ssa.Function) bool {
+					for x := f.Parent(); x != nil; x = x.Parent() {
+						if x == g {
+							return true
+						}
+					}
+					return false
+				}
+				if pv, ok := v.(interface{ Parent() *ssa.Function }); ok && isAncestor(pv.Parent()) {
+					spawns, inLoopSpawn := 0, false
+					for _, cs := range CallsIn(par, false) {
+						if !(cs.IsGo() || isSpawner(cs)) {
+							continue
+						}
+						lits := FuncArgClosures(cs)
+						if l := ClosureOf(cs); l != nil {
+							lits = append(lits, l)
+						}
+						for _, l := range lits {
+							if l == f {
+								if inLoop(cs.Block()) {
+									inLoopSpawn = true
+								}
+								spawns++
+							} else if usesIn(l, v) {
+								spawns++
+							}
+						}
+					}
+					if inLoopSpawn {
+						w.concurrent[m] = append(w.concurrent[m], FuncKey(par)+" (starts one goroutine per sub-store, all on the same list)")
+					} else if spawns >= 2 {
+						w.concurrent[m] = append(w.concurrent[m], FuncKey(par)+" (runs its sub-stores concurrently on the same list)")
+					}
+				}
+			}
+		}
+	}
+	for _, mm := range []map[string][]string{w.concurrent, w.reuse, w.prefix} {
+		for k, v := range mm {
+			sort.Strings(v)
+			mm[k] = c01SubUniq(v)
+		}
+	}
+	return w
+}
+
+// ---------------------------------------------------------------------------
+// R-refs-cover
+
+type c01RefsCover struct {
+	done      bool
+	bad       []string
+	undecided []string
+	loops     int
+	forwards  int
+	anchors   int
+	returns   int
+}
+
+func (cv *c01RefsCover) ok() bool { return len(cv.bad) == 0 && len(cv.undecided) == 0 }
+
+// listLoop recognises `for i/_, x := range list` / `for i := 0; i < len(list); i++`
+// around an indexing of the list: the loop that visits index 0, 1, ... len-1.
+func (a *c01Refs) listLoop(s *c01RefsSum, ix c01RefsIndexing) (*c01Loop, string) {
+	ia := ix.ia
+	if _, isConst := ia.Index.(*ssa.Const); isConst {
+		return nil, ""
+	}
+	at := s.alias[ia.X]
+	if at == nil || !at.whole || at.copy && s.copyOverwritten() {
+		return nil, "" // a part of the list: reported as such; a copy that was edited does not stand for the list
+	}
+	for _, l := range a.loopsOf(ix.fn) {
+		if !l.body[ia.Block()] || len(l.head.Instrs) == 0 {
+			continue
+		}
+		ifi, ok := l.head.Instrs[len(l.head.Instrs)-1].(*ssa.If)
+		if !ok || len(l.head.Succs) != 2 || !l.body[l.head.Succs[0]] || l.body[l.head.Succs[1]] {
+			continue
+		}
+		cmp, ok := ifi.Cond.(*ssa.BinOp)
+		if !ok || cmp.Op != token.LSS || cmp.X != ia.Index || !s.lenOfWhole(cmp.Y) {
+			continue
+		}
+		isStep := func(v ssa.Value, of ssa.Value) bool {
+			bo, ok := v.(*ssa.BinOp)
+			if !ok || bo.Op != token.ADD || bo.X != of {
+				return false
+			}
+			n, ok := ConstInt(bo.Y)
+			return ok && n == 1
+		}
+		check := func(ph *ssa.Phi, start int64, next func(ssa.Value) bool) bool {
+			if ph.Block() != l.head {
+				return false
+			}
+			for i, e := range ph.Edges {
+				if l.body[l.head.Preds[i]] {
+					if !next(e) {
+						return false
+					}
+				} else if n, ok := ConstInt(e); !ok || n != start {
+					return false
+				}
+			}
+			return true
+		}
+		switch idx := ia.Index.(type) {
+		case *ssa.BinOp: // range form: i = phi(-1, i) + 1
+			if ph, ok := idx.X.(*ssa.Phi); ok && isStep(idx, ph) && check(ph, -1, func(e ssa.Value) bool { return e == ssa.Value(idx) }) {
+				return l, ""
+			}
+		case *ssa.Phi: // three-clause form: i = phi(0, i+1)
+			if check(idx, 0, func(e ssa.Value) bool { return isStep(e, idx) }) {
+				return l, ""
+			}
+		}
+	}
+	if c01InnermostLoop(a.loopsOf(ix.fn), ia.Block()) == nil {
+		return nil, "" // a single access (a comparator, a peek at one element), not a walk over the list
+	}
+	return nil, fmt.Sprintf("the list is indexed inside a loop, at line %d, by something that is not the counter of a loop from 0 to len(list)-1", a.line(ia.Pos()))
+}
+
+// elemUses: blocks of fn in which the element loaded from the given indexings is
+// used (passed to a call, captured by a literal, used as a map key, stored, sent),
+// and blocks that branch on a value computed from it.
+func c01RefsElemUses(fn *ssa.Function, ias []*ssa.IndexAddr) (uses, branches map[*ssa.BasicBlock]bool) {
+	uses, branches = map[*ssa.BasicBlock]bool{}, map[*ssa.BasicBlock]bool{}
+	taint := map[ssa.Value]bool{}
+	var work []ssa.Value
+	add := func(v ssa.Value) {
+		if v != nil && !taint[v] {
+			taint[v] = true
+			work = append(work, v)
+		}
+	}
+	for _, ia := range ias {
+		add(ia)
+	}
+	for len(work) > 0 {
+		v := work[len(work)-1]
+		work = work[:len(work)-1]
+		refs := v.Referrers()
+		if refs == nil {
+			continue
+		}
+		for _, ref := range *refs {
+			if ref.Parent() != fn {
+				continue
+			}
+			switch x := ref.(type) {
+			case *ssa.DebugRef:
+			case ssa.CallInstruction:
+				if n := c01RefsBuiltin(CallSite{fn, x}); n == "len" || n == "cap" {
+					continue
+				}
+				uses[x.Block()] = true
+				if val, ok := x.(ssa.Value); ok {
+					add(val)
+				}
+			case *ssa.Store:
+				if x.Val != v {
+					continue // the element's own address being written is not a use
+				}
+				if al, ok := x.Addr.(*ssa.Alloc); ok {
+					add(al) // a local variable: its loads and captures carry the element
+				} else {
+					uses[x.Block()] = true
+				}
+			case *ssa.MakeClosure:
+				uses[x.Block()] = true
+				add(x)
+			case *ssa.MapUpdate, *ssa.Send, *ssa.Lookup, *ssa.Return, *ssa.Panic:
+				uses[ref.Block()] = true
+				if val, ok := ref.(ssa.Value); ok {
+					add(val)
+				}
+			case *ssa.If:
+				branches[x.Block()] = true
+			default:
+				if val, ok := ref.(ssa.Value); ok {
+					add(val)
+				}
+			}
+		}
+	}
+	return uses, branches
+}
+
+func c01RefsIterPath(l *c01Loop, avoid ...map[*ssa.BasicBlock]bool) bool {
+	blocked := func(b *ssa.BasicBlock) bool {
+		for _, m := range avoid {
+			if m[b] {
+				return true
+			}
+		}
+		return false
+	}
+	start := l.head.Succs[0]
+	if blocked(start) {
+		return false
+	}
+	seen := map[*ssa.BasicBlock]bool{start: true}
+	stack := []*ssa.BasicBlock{start}
+	for len(stack) > 0 {
+		b := stack[len(stack)-1]
+		stack = stack[:len(stack)-1]
+		for _, sc := range b.Succs {
+			if sc == l.head {
+				return true
+			}
+			if !l.body[sc] || seen[sc] || blocked(sc) {
+				continue
+			}
+			seen[sc] = true
+			stack = append(stack, sc)
+		}
+	}
+	return false
+}
+
+// lenZeroOn: the edge is taken only when len(list) == 0.
+func (s *c01RefsSum) lenZeroOn(from, to *ssa.BasicBlock) bool {
+	for _, f := range c01EdgeFacts(from, to) {
+		op, x, y, trueIdx, ok := c01CondCmp(f.Cond)
+		if !ok {
+			continue
+		}
+		val := f.Val
+		if trueIdx == 1 {
+			val = !val
+		}
+		if !s.lenOfWhole(x) {
+			if !s.lenOfWhole(y) {
+				continue
+			}
+			x, y, op = y, x, c01Flip(op)
+		}
+		n, isC := ConstInt(y)
+		if !isC {
+			continue
+		}
+		if !val {
+			op = c01SubNegate(op)
+		}
+		switch {
+		case op == token.EQL && n == 0, op == token.LSS && n == 1, op == token.LEQ && n == 0:
+			return true
+		}
+	}
+	return false
+}
+
+// coverOf decides R-refs-cover for one (function, list parameter).
+func (a *c01Refs) coverOf(s *c01RefsSum) *c01RefsCover {
+	if cv, ok := a.cover[s]; ok {
+		return cv
+	}
+	cv := &c01RefsCover{}
+	a.cover[s] = cv
+	for _, u := range c01SubUniq(s.partUses) {
+		if !s.aliased {
+			break // only ever handed copies: filtering such a copy in place is filtering into a fresh list
+		}
+		cv.undecided = append(cv.undecided, u+": whether the rest of the list is handled elsewhere is not decided")
+	}
+	// loops over the list
+	type loopInfo struct {
+		l   *c01Loop
+		fn  *ssa.Function
+		ias []*ssa.IndexAddr
+	}
+	var loops []*loopInfo
+	byLoop := map[*c01Loop]*loopInfo{}
+	for _, ix := range s.indexings {
+		l, why := a.listLoop(s, ix)
+		if why != "" {
+			cv.undecided = append(cv.undecided, why)
+		}
+		if l == nil {
+			continue
+		}
+		li := byLoop[l]
+		if li == nil {
+			li = &loopInfo{l: l, fn: ix.fn}
+			byLoop[l] = li
+			loops = append(loops, li)
+		}
+		li.ias = append(li.ias, ix.ia)
+	}
+	anchors := map[*ssa.Function][]ssa.Instruction{}
+	for _, li := range loops {
+		cv.loops++
+		uses, branches := c01RefsElemUses(li.fn, li.ias)
+		ln := a.line(li.ias[0].Pos())
+		if c01RefsIterPath(li.l, uses) {
+			if c01RefsIterPath(li.l, uses, branches) {
+				cv.bad = append(cv.bad, fmt.Sprintf("the loop over the list (element read at line %d) can go on to the next element without having used the current one, under a condition that does not depend on the element: that ref is neither handed on nor looked up", ln))
+			} else {
+				cv.undecided = append(cv.undecided, fmt.Sprintf("the loop over the list (element read at line %d) skips elements under a condition on the element that involves no call or lookup: whether the skipped refs need no handling is not decided", ln))
+			}
+		}
+		anchors[li.fn] = append(anchors[li.fn], li.l.head.Instrs[0])
+		// success reported from inside the loop
+		for _, nr := range c01MaybeNilReturns(li.fn) {
+			at := nr.to
+			if nr.from != nil {
+				at = nr.from
+			}
+			if entry := li.l.head.Succs[0]; entry == at || entry.Dominates(at) {
+				cv.undecided = append(cv.undecided, fmt.Sprintf("%s lies inside the loop over the list and may report success before the remaining refs were visited", c01EdgeName(a.p, nr)))
+			}
+		}
+	}
+	// hand-overs of the whole list
+	for _, fw := range s.forwards {
+		if !fw.whole || fw.copy && s.copyOverwritten() {
+			continue
+		}
+		if fw.sub != nil {
+			if sc := a.coverOf(fw.sub); sc.done && !sc.ok() {
+				continue // reported at the helper
+			}
+		}
+		cv.forwards++
+		anchors[fw.c.Fn] = append(anchors[fw.c.Fn], fw.c.Instr.(ssa.Instruction))
+	}
+	// a literal all of whose returns lie behind such a point counts where it is run
+	var leaks func(g *ssa.Function) []string
+	covered := map[*ssa.Function]bool{}
+	var litCovered func(g *ssa.Function) bool
+	litCovered = func(g *ssa.Function) bool {
+		if v, ok := covered[g]; ok {
+			return v
+		}
+		covered[g] = false
+		for _, h := range g.AnonFuncs {
+			if litCovered(h) {
+				for _, cs := range CallsIn(g, false) {
+					runs := ClosureOf(cs) == h
+					for _, l := range FuncArgClosures(cs) {
+						runs = runs || l == h
+					}
+					if runs {
+						anchors[g] = append(anchors[g], cs.Instr.(ssa.Instruction))
+					}
+				}
+			}
+		}
+		res := len(anchors[g]) > 0 && len(leaks(g)) == 0
+		covered[g] = res
+		return res
+	}
+	leaks = func(g *ssa.Function) []string {
+		stop := map[*ssa.BasicBlock]bool{}
+		for _, in := range anchors[g] {
+			b := in.Block()
+			for _, l := range a.loopsOf(g) { // sorted small to large: the last match is the outermost
+				if l.body[b] {
+					stop[l.head] = true
+				}
+			}
+			stop[b] = true
+		}
+		reach := map[*ssa.BasicBlock]bool{}
+		if len(g.Blocks) > 0 && !stop[g.Blocks[0]] {
+			reach[g.Blocks[0]] = true
+			stack := []*ssa.BasicBlock{g.Blocks[0]}
+			for len(stack) > 0 {
+				b := stack[len(stack)-1]
+				stack = stack[:len(stack)-1]
+				for _, sc := range b.Succs {
+					if !reach[sc] && !stop[sc] {
+						reach[sc] = true
+						stack = append(stack, sc)
+					}
+				}
+			}
+		}
+		var out []string
+		if ErrResultIndex(g) < 0 {
+			for _, ri := range Returns(g) {
+				if reach[ri.Ret.Block()] {
+					out = append(out, fmt.Sprintf("return at line %d", a.line(ri.Ret.Pos())))
+				}
+			}
+			return out
+		}
+		for _, nr := range c01MaybeNilReturns(g) {
+			at := nr.to
+			if nr.from != nil {
+				at = nr.from
+			}
+			if !reach[at] || s.lenZeroOn(nr.from, nr.to) {
+				continue
+			}
+			if g == s.key.fn {
+				cv.returns++
+			}
+			out = append(out, c01EdgeName(a.p, nr))
+		}
+		return out
+	}
+	top := s.key.fn
+	litCovered(top)
+	for _, in := range anchors[top] {
+		_ = in
+		cv.anchors++
+	}
+	for _, lk := range leaks(top) {
+		cv.bad = append(cv.bad, fmt.Sprintf("%s can report success although the list was neither handed to a sub-store or helper as a whole nor walked by a loop over all of it on the way there", lk))
+	}
+	cv.done = true
+	return cv
+}
+
+// ---------------------------------------------------------------------------
+
+func c01RuleRefs(p *Program, r *Reporter) {
+	const ruleI, ruleC = "R-refs-intact", "R-refs-cover"
+	a := &c01Refs{p: p, memo: map[c01RefsKey]*c01RefsSum{}, cover: map[*c01RefsSum]*c01RefsCover{}, loops: map[*ssa.Function][]*c01Loop{},
+		statter: p.Iface("pkg/blobserver", "BlobStatter"), remover: p.Iface("pkg/blobserver", "BlobRemover")}
+	type entry struct {
+		s       *c01RefsSum
+		inScope bool
+	}
+	var entries []entry
+	seen := map[*ssa.Function]bool{}
+	for _, spec := range []struct {
+		it   *types.Interface
+		name string
+	}{{a.remover, "RemoveBlobs"}, {a.statter, "StatBlobs"}} {
+		for _, n := range p.Implementers(spec.it, false) {
+			fn := c01DeclaredMethod(p, n, spec.name)
+			if fn == nil || fn.Blocks == nil || seen[fn] {
+				continue // promoted from an embedded implementer, which is itself enumerated
+			}
+			seen[fn] = true
+			found := false
+			for i, prm := range fn.Params {
+				if c01RefsIsList(prm.Type()) {
+					s := a.summarise(fn, i)
+					s.entry = spec.name
+					entries = append(entries, entry{s, c01ScopePkgs[RelPkg(fn.Pkg.Pkg)]})
+					found = true
+				}
+			}
+			if !found {
+				brokenf("anchor unresolved: %s has no []blob.Ref parameter", FuncKey(fn))
+			}
+		}
+	}
+	w := a.witnesses()
+	isEntry := map[*c01RefsSum]bool{}
+	scope := map[*c01RefsSum]bool{}
+	for _, e := range entries {
+		isEntry[e.s] = true
+		if e.inScope {
+			scope[e.s] = true
+		}
+	}
+	// helpers reached from an in-scope entry are in scope; helpers reached with the
+	// caller's own array (not just a copy made on the way) answer for that array
+	for _, e := range entries {
+		e.s.aliased = true
+	}
+	for changed := true; changed; {
+		changed = false
+		for _, s := range a.order {
+			for _, fw := range s.forwards {
+				if fw.sub == nil {
+					continue
+				}
+				if scope[s] && !scope[fw.sub] {
+					scope[fw.sub] = true
+					changed = true
+				}
+				if s.aliased && !fw.copy && !fw.sub.aliased {
+					fw.sub.aliased = true
+					changed = true
+				}
+			}
+		}
+	}
+	sums := append([]*c01RefsSum(nil), a.order...)
+	sort.Slice(sums, func(i, j int) bool {
+		ki, kj := FuncKey(sums[i].key.fn), FuncKey(sums[j].key.fn)
+		if ki != kj {
+			return ki < kj
+		}
+		return sums[i].key.idx < sums[j].key.idx
+	})
+	nI, nC, calls := 0, 0, 0
+	for _, s := range sums {
+		key := FuncKey(s.key.fn) + "#" + s.prm.Name()
+		site := p.Pos(s.key.fn.Pos())
+		calls += s.calls
+		role := "helper that is handed the list"
+		if isEntry[s] {
+			role = s.entry + " method"
+		}
+		// ---- R-refs-intact
+		if !s.aliased {
+			r.Note("%s: %s is only ever handed copies of the list made by its callers; what it does to them is not an obligation", ruleI, key)
+		}
+		var strong, weak []string
+		for _, e := range s.events {
+			if e.kind == c01RwExtend {
+				weak = append(weak, e.what)
+			} else {
+				strong = append(strong, fmt.Sprintf("%s (%s)", e.what, c01RwNames[e.kind]))
+			}
+		}
+		var who []string
+		onlyPermute := true
+		for _, e := range s.events {
+			if e.kind == c01RwOverwrite {
+				onlyPermute = false
+			}
+		}
+		for _, m := range []string{"RemoveBlobs", "StatBlobs"} {
+			if s.entry != "" && s.entry != m {
+				continue
+			}
+			who = append(who, w.concurrent[m]...)
+			if !onlyPermute {
+				who = append(who, w.reuse[m]...)
+			}
+		}
+		for _, e := range s.events {
+			if e.kind != c01RwOverwrite {
+				continue
+			}
+			if d := a.laterUse(s, e); d != "" {
+				who = append([]string{fmt.Sprintf("%s itself, after the write: %s", FuncKey(s.key.fn), d)}, who...)
+				break
+			}
+		}
+		var prefixWho []string
+		for _, m := range []string{"RemoveBlobs", "StatBlobs"} {
+			if s.entry == "" || s.entry == m {
+				prefixWho = append(prefixWho, w.prefix[m]...)
+			}
+		}
+		report := func(f func(rule, construct, site, detail string), detail string) {
+			if !s.aliased {
+				return
+			}
+			if scope[s] || isEntry[s] && c01ScopePkgs[RelPkg(s.key.fn.Pkg.Pkg)] {
+				f(ruleI, key, site, detail)
+				nI++
+			} else if len(strong) > 0 || len(s.undecided) > 0 || len(weak) > 0 && len(prefixWho) > 0 {
+				r.Note("%s: %s (outside the C01 quantifier, not enforced): %s", ruleI, key, detail)
+			} else {
+				r.OKTable(ruleI, key, site, "outside the C01 quantifier, checked all the same: "+detail)
+				nI++
+			}
+		}
+		switch {
+		case len(strong) > 0 && len(who) > 0:
+			report(r.Violation, fmt.Sprintf("%s: the caller's ref list is written: %s. The list belongs to the caller, which goes on using it: %s. A ref can thus be acted on twice and another not at all although every call reports success",
+				role, strings.Join(c01First(strong, 3), "; "), strings.Join(c01First(who, 4), "; ")))
+		case len(strong) > 0:
+			report(r.Undecided, fmt.Sprintf("%s: the caller's ref list is written (%s) and no caller inside the module that still uses the list was found; callers outside cannot be seen", role, strings.Join(c01First(strong, 3), "; ")))
+		case len(weak) > 0 && len(prefixWho) > 0:
+			report(r.Violation, fmt.Sprintf("%s: %s; callers that pass a prefix of a longer list: %s", role, strings.Join(c01First(weak, 3), "; "), strings.Join(c01First(prefixWho, 3), "; ")))
+		case len(s.undecided) > 0:
+			report(r.Undecided, fmt.Sprintf("%s: %s", role, strings.Join(c01First(c01SubUniq(s.undecided), 4), "; ")))
+		default:
+			extra := ""
+			if len(weak) > 0 {
+				extra = fmt.Sprintf("; %d append(s) onto the list itself write only behind its end and no caller in the module passes a prefix of a longer list", len(weak))
+			}
+			report(r.OK, fmt.Sprintf("%s: %d values may share the array of %s (re-slices, variables, captures); followed through %d calls (%d hand-overs to sub-stores/helpers); none of them is written: no element store, append in place, copy, sort or slices.* edit%s",
+				role, len(s.alias), s.prm.Name(), s.calls, len(s.forwards), extra))
+		}
+		// ---- R-refs-cover
+		if !scope[s] {
+			continue
+		}
+		cv := a.coverOf(s)
+		nC++
+		switch {
+		case len(cv.bad) > 0:
+			r.Violation(ruleC, key, site, fmt.Sprintf("%s: %s", role, strings.Join(c01First(cv.bad, 3), "; ")))
+		case len(cv.undecided) > 0:
+			r.Undecided(ruleC, key, site, fmt.Sprintf("%s: %s", role, strings.Join(c01First(cv.undecided, 3), "; ")))
+		case cv.loops == 0 && cv.forwards == 0 && cv.anchors == 0:
+			r.OK(ruleC, key, site, fmt.Sprintf("%s: never reports success (every return carries a non-nil error or lies behind len(list) == 0); the list is not used", role))
+		default:
+			r.OK(ruleC, key, site, fmt.Sprintf("%s: %d loop(s) over the whole list (index 0..len-1, every path to the next element uses the current one), %d hand-over(s) of the whole list; no part of the list is singled out; every return that may report success lies behind one of them",
+				role, cv.loops, cv.forwards))
+		}
+	}
+	r.Analysed("ref_list_call_sites", calls)
+	for _, m := range []string{"RemoveBlobs", "StatBlobs"} {
+		r.Note("R-refs-intact: callers of %s that rely on the list staying intact: concurrently %v; afterwards %v; passing a prefix of a longer list %v", m, w.concurrent[m], w.reuse[m], w.prefix[m])
+	}
+	r.Analysed("ref_list_obligations", nI+nC)
+	r.Floor(ruleI, 48) // 51 today: 23 RemoveBlobs + 26 StatBlobs methods, StatBlobsParallelHelper, batchedShards
+	r.Floor(ruleC, 26) // 27 today: 12 + 13 methods of the C01 back ends (+ index), and the two helpers
 }
